@@ -856,7 +856,16 @@ class Frame:
             if attr == "join":
                 return o.join(self._flatten_str(args[0]))
             if attr == "format":
+                if all(isinstance(a, (str, int)) for a in args) and all(isinstance(v, (str, int)) for v in kwargs.values()):
+                    try:
+                        return o.format(*args, **kwargs)
+                    except (IndexError, KeyError, ValueError):
+                        return "<msg>"
                 return "<msg>"
+            if attr in ("upper", "lower", "strip", "swapcase") and not args:
+                return getattr(o, attr)()
+            if attr == "replace" and len(args) == 2 and all(isinstance(a, str) for a in args):
+                return o.replace(*args)
         if isinstance(o, IntArr):
             if attr == "tolist":
                 return list(o.v)
